@@ -150,8 +150,13 @@ func genTapTree(r *Rng, n int, w *bufio.Writer) {
 		if cnt >= 2 && r.Chance(6) { // a repeated leaf: outside the property, inside the model
 			ls[r.Intn(cnt)] = ls[r.Intn(cnt)]
 		}
-		if cnt >= 1 && r.Chance(5) { // an odd leaf version: not representable in a control block
-			ls[r.Intn(cnt)].ver |= 1
+		if cnt >= 1 && (i%8 == 5 || r.Chance(4)) {
+			// odd leaf versions (0xc5, 0xc1, ...): fine in memory; in the control-block bytes
+			// bit 0 is the parity flag, so they do not survive ToBytes/ParseControlBlock
+			for x := 1 + r.Intn(2); x > 0; x-- {
+				j := r.Intn(cnt)
+				ls[j].ver = byte(r.Pick(0xc5, 0xc1, int(ls[j].ver)|1))
+			}
 		}
 		key := tapRndPriv(r).PubKey()
 		fmt.Fprintln(w, tapTreeLine(key, ls))
@@ -243,9 +248,16 @@ func runTapTree(t *Toks) string {
 	root := tree.RootNode.TapHash()
 	var sers []string
 	rt := true
-	var ver strings.Builder
+	var ver, mem, flip strings.Builder
 	for i := range tree.LeafMerkleProofs {
 		cb := tree.LeafMerkleProofs[i].ToControlBlock(key)
+		if n := len(tree.LeafMerkleProofs); i == 0 || i == 1 || i == n/2 || i == n-1 {
+			// in memory: the block as built, and a forged one whose leaf version differs in bit 0
+			mem.WriteString(b2s(taproot.VerifyTaprootLeafCommitment(&cb, qx, tree.LeafMerkleProofs[i].Script) == nil))
+			forged := cb
+			forged.LeafVersion ^= 1
+			flip.WriteString(b2s(taproot.VerifyTaprootLeafCommitment(&forged, qx, tree.LeafMerkleProofs[i].Script) == nil))
+		}
 		bs, err := cb.ToBytes()
 		if err != nil {
 			return "res=err-tobytes"
@@ -289,7 +301,7 @@ func runTapTree(t *Toks) string {
 			kv = fmt.Sprintf("kvk=%s kvv=%s kvrt=%s", hx(k), hx(v), st)
 		}
 	}
-	return fmt.Sprintf("res=ok root=%s cbs=%s rt=%s ver=%s %s", hx(root[:]), strings.Join(sers, ","), b2s(rt), ver.String(), kv)
+	return fmt.Sprintf("res=ok root=%s cbs=%s rt=%s ver=%s mem=%s flip=%s %s", hx(root[:]), strings.Join(sers, ","), b2s(rt), ver.String(), mem.String(), flip.String(), kv)
 }
 
 // ---- tapcb: control-block bytes, mostly mutated ----
